@@ -414,10 +414,46 @@ def plane_waves(ck: Check, quick: bool):
                                         f"(peak {float(np.max(ss)):.3g}); moment formula on the raw spectrum {lam} vs wavelength {L / m}", case)
 
 
+def plane_waves_anisotropic(ck: Check, quick: bool):
+    """plane waves on boxes with UNEQUAL spacings and cell counts (ratios up to 8), along any axis, resolved by >= 4 cells per period ALONG THAT
+    AXIS - also when the wavelength is shorter than two cells of a coarser axis (the property quantifies over grid spacings per axis)"""
+    from pde import CartesianGrid, ScalarField
+
+    rng = ck.rng
+    boxes = [((64, 16), (0.5, 2.0)), ((16, 48), (3.0, 0.5)), ((8, 8, 32), (4.0, 4.0, 1.0)), ((24, 6), (0.01, 0.08)), ((12, 40), (250.0, 50.0))]
+    if not quick:
+        boxes += [((128, 16), (0.25, 2.0)), ((6, 36, 6), (6.0, 1.0, 5.0)), ((20, 60), (1.0, 0.3))]
+    for shape, dxs in boxes:
+        dim = len(shape)
+        for ax in range(dim):
+            N, dx = shape[ax], dxs[ax]
+            L = N * dx
+            ms = sorted({1, 2, max(1, N // 8), max(1, N // 5), N // 4}) if quick else range(1, N // 4 + 1)
+            for m in ms:
+                if m < 1 or N / m < 4:
+                    continue
+                grid = CartesianGrid([[0, n * d] for n, d in zip(shape, dxs)], list(shape), periodic=True)
+                x = grid.cell_coords[..., ax]
+                amp, off, ph = rng.uniform(0.05, 2), rng.choice([0.0, 0.3, -1.0]), rng.uniform(0, 6)
+                f = ScalarField(grid, off + amp * np.sin(2 * np.pi * m * x / L + ph))
+                k_true = 2 * np.pi * m / L
+                dk = 2 * np.pi / max(n * d for n, d in zip(shape, dxs))  # the finest Fourier bin of the box
+                case = {"kind": "plane-wave-anisotropic", "shape": list(shape), "spacing": list(dxs), "axis": ax, "m": m, "amplitude": amp, "offset": off, "phase": ph}
+                s = length(f, "structure_factor_maximum")
+                ck.case(("pwa", shape, dxs, ax, m))
+                ck.count("plane_waves_anisotropic")
+                if L / m < 2 * max(dxs):
+                    ck.count("plane_waves_shorter_than_two_coarse_cells")
+                if isinstance(s, str) or not math.isfinite(s) or abs(2 * np.pi / s - k_true) > 0.5 * dk:
+                    ck.fail(f"plane wave along axis {ax} of a {shape} box with spacings {dxs}, mode {m}: peak method returns {s}; true length {L / m}",
+                            {"method": "structure_factor_maximum", "check": "peak_plane_wave", "dim": dim, "anisotropic": True}, case)
+
+
 def replay(case: dict):
     ck = Check("C17", "quick", 0)
     run_cases(ck, 10)
     plane_waves(ck, True)
+    plane_waves_anisotropic(ck, True)
     bad = [f["what"] for f in ck.failures] + [m["what"] for m in ck.mismatches]
     return not bad, "; ".join(bad[:3]) or "property holds on re-run"
 
@@ -437,3 +473,4 @@ def run(ck: Check):
     except RuntimeError as e:
         ck.mismatch("c17-formulas", f"driver unavailable: {e}", {})
     plane_waves(ck, ck.quick)
+    plane_waves_anisotropic(ck, ck.quick)
